@@ -7,7 +7,9 @@ atomic flag access, the poller's `notify` and the entry to / return from the wai
 or the next `wait` return, and only a returning wait clears it.  The loop waits without a timeout and
 no source fires (the worst case for a lost wake-up).  Control states are numbers (linear arithmetic):
 `lp` = 0 not started · 1 reset done · 2 stop checked (was false) · 3 block_on: about to swap
-`future_ready` · 4 about to wait · 5 waiting · 6 wait returned · 7 iteration finished · 8 returned.
+`future_ready` · 9 block_on: flag swapped (it was set), the future is being polled · 4 about to wait ·
+5 waiting · 6 wait returned · 7 iteration finished · 8 returned.  The swap and the poll are separate steps:
+wakers run while the future is being polled (another thread, or the future waking itself).
 `mode` 0 = run, 1 = block_on.  `result` 0 none · 1 Some(output) · 2 stopped (run: Ok(()), block_on: None).
 -/
 namespace Verif.SignalProto
@@ -36,7 +38,7 @@ structure St where
 inductive Act
   | stopStart | stopStore | wakeupStart | wakeupNotify | complete
   | wakerStart | wakerStore | wakerNotify
-  | runStart | check | afterChecked | swap | enterWait | waitReturn | afterWait
+  | runStart | check | afterChecked | swap | pollEnd | enterWait | waitReturn | afterWait
   deriving DecidableEq, Repr
 
 def step (s : St) : Act → Option St
@@ -63,11 +65,15 @@ def step (s : St) : Act → Option St
     else none
   | .afterChecked => if s.lp = 2 then some { s with lp := if s.mode = 1 then 3 else 4 } else none
   | .swap =>
+    -- `future_ready.swap(false)`; if it was set the future's poll begins (its waker is registered, the poll is counted)
     if s.lp = 3 then
-      if s.fready = 1 then
-        if s.futDone = 1 then some { s with fready := 0, polls := s.polls + 1, wakesPending := 0, lp := 8, result := 1 }
-        else some { s with fready := 0, polls := s.polls + 1, wakesPending := 0, lp := 4 }
+      if s.fready = 1 then some { s with fready := 0, polls := s.polls + 1, wakesPending := 0, lp := 9 }
       else some { s with lp := 4 }
+    else none
+  | .pollEnd =>
+    -- the poll looks at the future's state and returns Ready or Pending
+    if s.lp = 9 then
+      if s.futDone = 1 then some { s with lp := 8, result := 1 } else some { s with lp := 4 }
     else none
   | .enterWait => if s.lp = 4 then some { s with lp := 5 } else none
   | .waitReturn => if s.lp = 5 ∧ s.notif = 1 then some { s with lp := 6, notif := 0 } else none
